@@ -670,8 +670,26 @@ class Program:
                 v = self.class_constant(K, n.attr)
                 if v is not None:
                     hits[id(n)] = v
-        if not hits:
+        fi = self._devirtualise(fi, K, recv, keep)
+        if not hits and not getattr(fi, "_devirt", False):
             return fi
+        hits = {}
+        for n in ast.walk(fi.node):
+            if isinstance(n, ast.Attribute) and isinstance(
+                    n.value, ast.Name) and n.value.id in recv and isinstance(
+                    n.ctx, ast.Load):
+                owner = None
+                for c in self.mro(K):
+                    ci = self.classes.get(c)
+                    if ci is not None and n.attr in ci.assigns:
+                        owner = ci
+                        break
+                if owner is None or \
+                        f"{owner.module.name}:={owner.name}.{n.attr}" in keep:
+                    continue
+                v = self.class_constant(K, n.attr)
+                if v is not None:
+                    hits[id(n)] = v
         fn = clone(fi.node)
         # clone() keeps structure: walk both trees in parallel
         pairs = list(zip(ast.walk(fi.node), ast.walk(fn)))
@@ -716,6 +734,122 @@ class Program:
             out = FuncInfo(fi.qual, fi.module, u, fi.cls)
         except Exception:
             pass
+        return out
+
+    def _devirtualise(self, fi: "FuncInfo", K: str, recv: set, keep: set):
+        """Calls `self.hook()` of hook methods outside the inventory whose
+        body is one return expression are replaced by that expression as
+        class K executes it: the method found along K's MRO, `super().hook()`
+        inside it continued after the defining class, `Cls.hook(self)` taken
+        from Cls.  {**{..}, k: v} literals are merged."""
+        prog = self
+
+        def body_expr(m):
+            b = [st for st in m.node.body if not (
+                isinstance(st, ast.Expr) and isinstance(
+                    st.value, ast.Constant))]
+            if len(b) == 1 and isinstance(b[0], ast.Return) and \
+                    b[0].value is not None and len(m.params()) == 1:
+                return b[0].value
+            return None
+
+        def expand(call, who, cur_cls, depth):
+            """expression for a hook call, or None"""
+            if depth > 8:
+                return None
+            f = call.func
+            if call.args or call.keywords:
+                # Cls.hook(self)
+                if isinstance(f, ast.Attribute) and isinstance(
+                        f.value, ast.Name) and f.value.id in prog.classes \
+                        and len(call.args) == 1 and not call.keywords and \
+                        isinstance(call.args[0], ast.Name):
+                    m = prog.resolve_method(f.value.id, f.attr)
+                    who2 = call.args[0].id
+                else:
+                    return None
+            elif isinstance(f, ast.Attribute) and isinstance(
+                    f.value, ast.Name) and f.value.id == who:
+                m = prog.resolve_method(K, f.attr)
+                who2 = who
+            elif isinstance(f, ast.Attribute) and isinstance(
+                    f.value, ast.Call) and call_name(f.value) == "super" \
+                    and cur_cls is not None:
+                m = prog.resolve_method(K, f.attr, after=cur_cls)
+                who2 = who
+            else:
+                return None
+            if m is None or m.qual in keep or m.cls is None:
+                return None
+            e = body_expr(m)
+            if e is None:
+                return None
+            me = m.params()[0]
+            e = clone(e)
+
+            class T(ast.NodeTransformer):
+                def visit_Call(self, n):
+                    r = expand(n, me, m.cls.name, depth + 1)
+                    if r is not None:
+                        return r
+                    self.generic_visit(n)
+                    return n
+
+                def visit_Name(self, n):
+                    if n.id == me and me != who2:
+                        return ast.copy_location(
+                            ast.Name(who2, n.ctx), n)
+                    return n
+
+                def visit_Dict(self, n):
+                    self.generic_visit(n)
+                    keys, vals = [], []
+                    for k, v_ in zip(n.keys, n.values):
+                        if k is None and isinstance(v_, ast.Dict):
+                            for kk, vv in zip(v_.keys, v_.values):
+                                if kk is not None and any(
+                                        x is not None and norm(x) == norm(kk)
+                                        for x in keys):
+                                    i = [norm(x) if x is not None else None
+                                         for x in keys].index(norm(kk))
+                                    vals[i] = vv
+                                else:
+                                    keys.append(kk)
+                                    vals.append(vv)
+                        elif k is not None and any(
+                                x is not None and norm(x) == norm(k)
+                                for x in keys):
+                            i = [norm(x) if x is not None else None
+                                 for x in keys].index(norm(k))
+                            vals[i] = v_
+                        else:
+                            keys.append(k)
+                            vals.append(v_)
+                    n.keys, n.values = keys, vals
+                    return n
+            return T().visit(e)
+
+        changed = [False]
+
+        class Top(ast.NodeTransformer):
+            def visit_Call(self, n):
+                f = n.func
+                if isinstance(f, ast.Attribute) and isinstance(
+                        f.value, ast.Name) and f.value.id in recv and \
+                        not n.args and not n.keywords:
+                    r = expand(n, f.value.id, None, 0)
+                    if r is not None:
+                        changed[0] = True
+                        return ast.copy_location(r, n)
+                self.generic_visit(n)
+                return n
+        fn = Top().visit(clone(fi.node))
+        if not changed[0]:
+            return fi
+        ast.fix_missing_locations(fn)
+        set_parents(fn)
+        out = FuncInfo(fi.qual, fi.module, fn, fi.cls)
+        out._devirt = True
         return out
 
     def inlined_away(self, qual: str) -> bool:
